@@ -29,7 +29,7 @@ package hermes
 //@ func DateConverter$1
 // every date of the inputs (start, schedules, rotation, windows) goes through this converter: it also serves the
 // properties that rest on those dates being the calendar dates of the files
-//@   serves C12, C05, C04, C10, C16
+//@   serves C12, C05, C04, C10, C16, C20
 //@   opaque extractDate
 // parsed numbers (first, second, year field of the text, as extractDate returns them); the century of a two-digit year:
 // a year below the configured split belongs to 20xx, a year from the split on to 19xx (the window [1900+cent, 2000+cent))
@@ -124,7 +124,8 @@ package hermes
 //@   |  forallint(d, iff(indom(g.GWTimeSeriesValues, d), 0 <= ufint("tsindex", d) && ufint("tsindex", d) < len(g.GWTimestamps) && g.GWTimestamps[ufint("tsindex", d)] == d))
 
 //@ func GetGroundWaterLevel
-//@   serves C20
+// (the level it returns is the table Evatra keeps root uptake above: it also serves C08)
+//@   serves C20, C08
 //@   define n() = len(g.GWTimestamps)
 //@   define ts(i) = g.GWTimestamps[i]
 //@   define val(d) = g.GWTimeSeriesValues[d]
@@ -384,6 +385,9 @@ package hermes
 //@   ensures[C08] trrel: 0 <= g.TRREL
 //@   ensures[C08] lured: cropped() ==> 0 <= g.LURED && g.LURED <= 1
 //@   before stmt "for i := 0; i < g.N; i++ { l.NFK[i] =": assert[C08] redev: 0 <= REDEV && REDEV <= 1
+// redistribution of the uptake deficit: what a layer passes down to the layers below is never negative and never more than
+// the uptake assigned to it (otherwise the total uptake grows and the transpiration ratio exceeds 1)
+//@   before stmt "if TREST > 0 {": assert[C08] passdown: 0 <= TREST && TREST <= g.TP[index]
 //@   before stmt "if EVMAX > .65 {": assert[C08] split: 0 <= VERDU[tag()] && VERDU[tag()] <= ite(cropped(), 0.65, 0.6) && 0 <= EVMAX && EVMAX <= VERDU[tag()] && TRAMAX == VERDU[tag()] - EVMAX
 //@   safety[C06] index
 // division/domain safety of the ET formulas (over the reals a division by zero or a log/sqrt outside its domain is where
@@ -545,6 +549,8 @@ package hermes
 // J(k): dispersive flux from layer index k to k+1.
 //@ func nmove
 //@   serves C02, C07, C06
+// the crop N content (C09) only grows by a non-negative daily uptake: nmove's C07 clauses are what that needs
+//@   serves C09 as C07
 //@   define pe(k) = max(0.0, min(old(g.PE[k]), old(g.C1[k]) - 0.5))
 //@   define c1a(k) = ite(subd == 1, ite(old(g.C1[k]) - pe(k) < 0, 0.0, old(g.C1[k]) - pe(k)), old(g.C1[k]))
 //@   define vol(k) = g.WG[0][k]*g.DZ.Num*100
@@ -882,12 +888,18 @@ package hermes
 //@   ensures[C15] threshold: restored() ==> g.WMIN[0] < g.WRED && g.WRED < g.W[0]
 //@   ensures[C15,C06] saturated: g.GRW != oldGrW ==> forall(z, 0, g.N, real(z+1) >= g.GRW ==> g.WG[1][z] == g.W[z])
 //@   ensures[C15] unchanged: g.GRW == oldGrW ==> unchanged(g.W, g.WMIN, g.PORGES, g.WNOR, g.WRED, g.WG)
+// C01: a change of the level only imposes the water content AT AND BELOW the table (water entering/leaving the profile with
+// the table is outside the daily balance, as the property says); the water content of the layers ABOVE the table is not
+// touched - a top-up there would create water that no flux term accounts for
+//@   serves C01
+//@   ensures[C01,C06,C15] abovetable: forall(z, 0, 21, real(z+1) < g.GRW ==> g.WG[1][z] == old(g.WG[1][z])) && g.WG[0] == old(g.WG[0])
 //@ loop HermesSession.Run$1@"for idxLayer := 0; idxLayer < g.N; idxLayer++ {"
 //@   invariant range: 0 <= \i && \i <= g.N
 //@   invariant restored: forall(z, 0, \i, g.W[z] == g.W_Backup[z] && g.WMIN[z] == g.WMIN_Backup[z] && g.PORGES[z] == g.PORGES_Backup[z] && g.WNOR[z] == g.WNOR_Backup[z])
 //@ loop HermesSession.Run$1@"for z := 0; z < g.N; z++ { zNum := float64(z) + 1 if zNum >= g.GRW {"
 //@   invariant range: 0 <= \i && \i <= g.N
 //@   invariant sat: forall(z, 0, \i, real(z+1) >= g.GRW ==> g.WG[1][z] == g.W[z])
+//@   invariant[C01,C06,C15] above: forall(z, 0, 21, (real(z+1) < g.GRW || z >= \i) ==> g.WG[1][z] == old(g.WG[1][z])) && g.WG[0] == old(g.WG[0])
 
 // assignment of the layer parameters in Input, per route (explicit values of the soil file; pedotransfer functions)
 //@ region Input#soilparams from "for L := 1; L <= g.AZHO; L++ { lindex := L - 1 AD, err := Hydro(" to "for L := 1; L <= g.AZHO; L++ { lindex := L - 1 AD, err := Hydro("
@@ -918,6 +930,13 @@ package hermes
 //@   after stmt "g.PRGES[horizonIndex] = ValAsFloat(wa[": ghost tabfk = local.FK[horizonIndex]
 //@   after stmt "g.PRGES[horizonIndex] = ValAsFloat(wa[": ghost tablim = g.LIM[horizonIndex]
 //@   after stmt "g.PRGES[horizonIndex] = ValAsFloat(wa[": assume tableUsableWater: g.LIM[horizonIndex] < local.FK[horizonIndex]
+// the row of the texture table: three columns each for field capacity (from column 4), usable water (from 13) and pore
+// volume (from 22), one per bulk-density group (classes 1-2, 3, 4-5); the wilting point is field capacity minus the usable
+// water OF THE SAME GROUP (a neighbouring column gives a wilting point that can be negative for the dense sandy textures)
+//@   serves C19
+//@   define grp() = ite(g.LD[horizonIndex] <= 2, 0, ite(g.LD[horizonIndex] == 3, 1, 2))
+//@   define col(k) = ufreal("number", wa[k+3*grp() : k+2+3*grp()])
+//@   before stmt "g.WUMAX[horizonIndex] = ValAsFloat(wa[31:33]": assert[C15,C19] columns: local.FK[horizonIndex] == col(4)/100 && g.LIM[horizonIndex] == local.FK[horizonIndex] - col(13)/100 && g.PRGES[horizonIndex] == col(22)/100
 //@   requires horizon: 1 <= horizon && horizon <= 10
 //@   requires density: 1 <= g.LD[horizon-1] && g.LD[horizon-1] <= 5
 //@   ensures table: isnil(err) ==> g.PRGES[horizon-1] == tabpor + KRG/100 && g.NORMFK[horizon-1] == tabfk && g.FELDW[horizon-1] == tabfk + KRR/100 && g.LIM[horizon-1] == tablim
@@ -1253,6 +1272,20 @@ package hermes
 //@   ensures[C05,C16] record: due() && cur() >= 1 ==> finishedCycle
 //@   ensures[C16] harvestyear: due() && cur() >= 1 && g.AKF.Index == cur() + 1 ==> validDate(output.HarvestYear, hm, hd) && daynumber(output.HarvestYear, hm, hd) == zeit
 //@   ensures[C16] rotation: unchanged(g.FRUCHT, g.SAAT1, g.SAAT2, g.ERNTE2)
+// C07: the harvest restarts the per-crop sums only; the cumulative N counters of the run (fixation, uptake, mineralised
+// amounts, fertiliser bookkeeping) run on - the per-crop fixation is derived as a difference of the cumulative counter
+//@   serves C07
+//@   ensures[C07] runcounters: unchanged(g.NFIXSUM, g.MINAOS, g.MINFOS, g.UMS, g.NH4UMS)
+// C16: the crop record carries the code of the rotation entry that has just been harvested (taken from the rotation
+// array at the cursor position before it advances, not from a display variable set elsewhere)
+//@   ghost var recname string
+//@   ghost var reccode int
+//@   ghost var named bool = false
+//@   after call g.CropTypeToString: ghost recname = res0
+//@   at call g.CropTypeToString: ghost reccode = arg0
+//@   at call g.CropTypeToString: ghost named = true
+// (when the next entry's sowing window has already passed the record is overwritten by a SKIPPED record of that entry: excluded here as in harvestyear, see reading note F28)
+//@   ensures[C16] cropcode: due() && cur() >= 1 && g.AKF.Index == cur() + 1 ==> named && output.Crop == recname && reccode == old(g.FRUCHT[g.AKF.Index])
 
 // ---------------------------------------------------------------------------
 // C09  crop state (regions of the crop model PhytoOut and of the parameter readers)
@@ -1314,6 +1347,8 @@ package hermes
 // rooting depth: at least one layer, never deeper than the profile or the soil's root limit scaled by the crop factor
 //@ region PhytoOut#rootdepth from "WURM := math.Round(float64(g.WURZMAX) * (g.WUMAXPF / 11.))" to "g.WURZ = int(4.5 / Qrez / g.DZ.Num)"
 //@   serves C09
+// (a rooting depth beyond the profile makes the uptake loops run over layers that do not exist: 0/0 in the N uptake - C06)
+//@   serves C06
 //@   opaque root
 //@   requires layers: 1 <= g.N && g.N <= 20
 //@   requires units: g.DZ.Num == 10
@@ -1406,10 +1441,18 @@ package hermes
 //@   opaque KalenderDate LoadYear WetterK GetGroundWaterLevel Hydro calcWRed setFieldCapacityWithGW Evatra Soiltemp Water PhytoOut Nitro Denitmo Denitr GlobalVarsMain.setIrrigation KalenderConverter$1 DateConverter$1
 //@   requires step: g.DT.Index == 1
 //@   requires window: g.BEGINN <= g.ENDE + 1
+// the END DATE itself is simulated (C05: its record is written; C10: an action due on the last day is carried out): the
+// ghost `covered` is the last day whose loop body has run; the loop is left with covered >= end date on every exit
+//@   serves C10
+//@   ghost var covered int
+//@   requires fresh: covered == g.BEGINN - 1
+//@   before stmt "if ZEIT == g.BEGINN {": ghost covered = ZEIT
+//@   ensures[C05,C10] lastday: covered >= g.ENDE
 //@ loop HermesSession.Run$1@"for ZEIT := g.BEGINN; ZEIT <= g.ENDE; ZEIT = ZEIT + g.DT.Index {"
 //@   invariant begin: g.BEGINN == pre(g.BEGINN)
 //@   invariant step: g.DT.Index == 1
 //@   invariant range: g.BEGINN <= \i
+//@   invariant[C05,C10] covered: covered == \i - 1
 
 // ---------------------------------------------------------------------------
 // C11  termination and per-run failure reporting (sequential part; isolation across concurrent runs is outside)
@@ -2024,10 +2067,18 @@ package hermes
 //@   serves C07, C10
 //@   define due() = ZEIT == old(g.MESS[g.MZ-1])
 //@   requires fert: g.UMS <= g.DSUMM && g.NH4UMS <= g.NH4Sum
+// C06: a layer's water content is replaced only by a MEASURED (positive) value; layers without a measured value keep theirs
+// (one measurement date per plot: the arrays hold one measured profile)
+//@   serves C06
+//@   requires[C06] single: g.MZ == 1
+//@   ensures[C06] measuredwater: forall(z, 0, 21, g.WG[1][z] == old(g.WG[1][z]) || g.WG[1][z] > 0) && g.WG[0] == old(g.WG[0])
 //@   ensures[C07] dissolved: g.UMS <= g.DSUMM && g.NH4UMS <= g.NH4Sum
 //@   ensures[C07,C10] restart: due() ==> g.DSUMM == 0 && g.UMS == 0
 //@   ensures[C07,C10] otherdays: !due() ==> unchanged(g.DSUMM, g.UMS, g.NH4Sum, g.NH4UMS, g.C1, g.WG, g.MZ, g.OUTSUM, g.SICKER, g.CAPSUM)
 //@   ensures pools: unchanged(g.NAOS, g.NFOS, g.MINAOS, g.MINFOS)
+//@ loop HermesSession.Run$1@"for Z := 1; Z <= g.N+1; Z++ { Zindex := Z - 1 g.C1[Zindex] = g.CN[g.MZ][Zindex]"
+//@   invariant[C06] measuredwater: forall(z, 0, 21, g.WG[1][z] == old(g.WG[1][z]) || g.WG[1][z] > 0) && g.WG[0] == old(g.WG[0]) && g.WG[2] == old(g.WG[2]) && g.MZ == 1
+//@   invariant frame: unchanged(g.DSUMM, g.UMS, g.NH4Sum, g.NH4UMS, g.NAOS, g.NFOS, g.MINAOS, g.MINFOS, g.OUTSUM, g.SICKER, g.CAPSUM, g.MZ)
 
 // C09  gross photosynthesis: the effective day length the light-use formulas divide by is positive whenever the sun rises
 // (north of ~58.6 degrees the effective day length is 0 on days whose astronomical day length is still positive), and so
@@ -2044,7 +2095,7 @@ package hermes
 //@   serves C15, C19
 //@   opaque VerifyAndCorrectTexture SoilFileData.cNSetup
 //@   requires slot: 0 <= i && i < 10
-//@   ensures[C15] stonepercent: soildata.STEIN[i] == ufreal("number", tokens[header[stone]])/100
+//@   ensures[C15,C19] stonepercent: soildata.STEIN[i] == ufreal("number", tokens[header[stone]])/100
 //@   ensures[C19] density: 1 <= soildata.LD[i] && soildata.LD[i] <= 5 ==> soildata.BULK[i] == ufreal("number", tokens[header[bulkdensity]]) || (1.1 <= soildata.BULK[i] && soildata.BULK[i] <= 1.85)
 //@   return-ensures errorpath: !isnil(result1)
 //@ region LoadSoilCSV#gwsource between "soildata.WURZMAX = int(ValAsInt(tokens[header[rootdepth]]" and "soildata.DRAIDEP = int(ValAsInt(tokens[header[drainagedepth]]"
@@ -2073,8 +2124,13 @@ package hermes
 // and NOTHING beyond the listed fields (frame): a quantity derived from the parameters at read time that the override
 // does not re-derive (as it does for the total temperature sum) would make an overridden run differ from a run on the
 // edited file. Text parsing and yaml decoding are external (any numbers).
+//@ global define regrowth(g) = g.DAUERKULT && g.AKF.Num > 2 && g.FRUCHT[g.AKF.Index] == g.FRUCHT[g.AKF.Index-1]
 //@ func ReadCropParamYml
 //@   serves C18
+// a perennial that follows itself keeps its state: the readers and the override skip the initial N concentrations under
+// the SAME condition (OverwriteCropParameters: INITCONCNBIOM / INITCONCNROOT), otherwise both store value/100
+//@   ensures[C18] regrowthkeeps: regrowth(g) ==> g.GEHOB == old(g.GEHOB) && g.WUGEH == old(g.WUGEH)
+//@   ensures[C18] firststand: !regrowth(g) ==> g.GEHOB == cropParam.INITCONCNBIOM/100 && g.WUGEH == cropParam.INITCONCNROOT/100
 //@   ensures base: g.MAXAMAX == cropParam.MAXAMAX && g.MINTMP == cropParam.MINTMP && g.WUMAXPF == cropParam.WUMAXPF && g.VELOC == cropParam.VELOC/200 && g.YIFAK == cropParam.YIFAK
 //@   modifies g.ASIP, g.BAS, g.BLUET, g.DAUERKULT, g.DAYL, g.DEAD, g.DEV, g.DLBAS, g.DOUBLE, g.DRYSWELL, g.ENDPRO, g.GEHOB, g.LAIFKT, g.LEGUM, g.LUKRIT, g.MAIRT, g.MAXAMAX, g.MINTMP, g.NGEFKT, g.NRKOM, g.PHYLLO, g.PRO, g.REIF, g.RGA, g.RGB, g.SUM, g.SubOrgan, g.TROOTSUM, g.TSUM, g.VELOC, g.VERNTAGE, g.VSCHWELL, g.WDORG, g.WGMAX, g.WORG, g.WUGEH, g.WUMAXPF, g.YIFAK, g.YORGAN, l.AboveGroundOrgans, l.ENDBBCH, l.NRENTW, l.kc, l.kcini, l.temptyp, l.tendsum, l.useBBCH
 //@ func ReadCropParamClassic
@@ -2088,6 +2144,7 @@ package hermes
 //@   after call ValAsFloat#3: ghost fWumaxpf = res0
 //@   after call ValAsFloat#4: ghost fVeloc = res0
 //@   ensures base: g.MAXAMAX == fAmax && g.MINTMP == fMintmp && g.WUMAXPF == fWumaxpf && g.VELOC == fVeloc/200
+//@   ensures[C18] regrowthkeeps: regrowth(g) ==> g.GEHOB == old(g.GEHOB) && g.WUGEH == old(g.WUGEH)
 //@   modifies g.ASIP, g.BAS, g.BLUET, g.DAUERKULT, g.DAYL, g.DEAD, g.DEV, g.DLBAS, g.DOUBLE, g.DRYSWELL, g.ENDPRO, g.GEHOB, g.LAIFKT, g.LEGUM, g.LUKRIT, g.MAIRT, g.MAXAMAX, g.MINTMP, g.NGEFKT, g.NRKOM, g.PHYLLO, g.PRO, g.REIF, g.RGA, g.RGB, g.SUM, g.SubOrgan, g.TROOTSUM, g.TSUM, g.VELOC, g.VERNTAGE, g.VSCHWELL, g.WDORG, g.WGMAX, g.WORG, g.WUGEH, g.WUMAXPF, g.YIFAK, g.YORGAN, l.AboveGroundOrgans, l.ENDBBCH, l.NRENTW, l.kc, l.kcini, l.temptyp, l.tendsum, l.useBBCH
 
 // C20  the groundwater source of the configuration file: the mode is looked up under EXACTLY the configured word (the table
@@ -2189,7 +2246,7 @@ package hermes
 //@   serves C15, C19
 //@   opaque VerifyAndCorrectTexture SoilFileData.cNSetup
 //@   requires slot: 0 <= i && i < 10
-//@   ensures[C15] stonepercent: soildata.STEIN[i] == ufreal("number", bodenLine[18:20])/100
+//@   ensures[C15,C19] stonepercent: soildata.STEIN[i] == ufreal("number", bodenLine[18:20])/100
 //@   ensures[C19] density: 1 <= soildata.LD[i] && soildata.LD[i] <= 5 ==> 1.1 <= soildata.BULK[i] && soildata.BULK[i] <= 1.85
 //@   return-ensures errorpath: !isnil(result1)
 //@ region LoadSoil#gwsource between "soildata.WURZMAX = int(ValAsInt(" and "soildata.DRAIDEP = int(ValAsInt("
@@ -2220,8 +2277,11 @@ package hermes
 // (a gap ends the run with an error), and every value of the record is stored in the slot of THAT day, column by column
 // (columns: mean, minimum, maximum temperature, ET0, relative humidity, evaporation, wind, sunshine, radiation, precipitation,
 // day of year)
-//@ region WetterK#record from "WETTER := scanner.Text()" to "s.MaxYearDays[0] = T"
+//@ region WetterK#record from "WETTER := scanner.Text()" to "$end"
 //@   serves C04
+// (the year length it stores drives the calendar of the day loop - yearly records C05, day of year of the groundwater
+// sinusoid C20 - and a gap in the weather data is one of the reported error classes C11)
+//@   serves C05, C20, C11
 //@   opaque Explode
 //@   define num(k) = ufreal("number", Wettin[k])
 //@   ensures consecutive: T == old(Tlast) + 1 && Tlast == T && Tindex == T - 1
@@ -2229,3 +2289,49 @@ package hermes
 //@   ensures optional: s.ETNULL[0][T-1] == num(3) && s.VERD[0][T-1] == num(5) && s.SUND[0][T-1] == num(7)
 //@   ensures length: s.MaxYearDays[0] == T
 //@   return-ensures errorpath: !isnil(result0)
+
+// C16  the latest harvest date of the automatic harvest: day and month from the crop's row of the automatic-management
+// file, the YEAR of the harvest date of the rotation entry
+//@ region Input#harvestwindow from "har2 := crpman[14:18]" to "g.ERNTE[SLFINDindex] = 0"
+//@   serves C16
+//@   opaque ValAsFloat DateConverter$1
+//@   ghost var lh string
+//@   after stmt "_, g.ERNTE2[SLFINDindex] = g.Datum(": ghost lh = har2
+//@   ensures latest: lh == crpman[14:18] + ERNT[4:]
+//@   ensures pending: g.ERNTE[SLFINDindex] == 0
+
+// C11  termination of the schedule readers: the inner "rows of this field" loops of Input and of the measured-values reader
+// re-test the CURRENT line; they end because every pass through their body - on every path, including `continue` - reads
+// the next line (the files are finite: NextLineInut reports the end). A path that reaches the loop test again without
+// having read a line spins forever on the same line.
+//@ region Input#irrprogress from "l.ANZBREG++" to "$end"
+//@   serves C11
+//@   opaque NextLineInut ValAsFloat DateConverter$1
+//@   ghost var advanced bool = false
+//@   after call NextLineInut: ghost advanced = true
+//@   exit-ensures progress: advanced
+//@ region Input#rotprogress from "SLFIND++" to "$end"
+//@   serves C11
+//@   opaque NextLineInut ValAsFloat ValAsInt DateConverter$1 dueng LineInut HermesSession.Open GlobalVarsMain.ToCropType
+//@   ghost var advanced bool = false
+//@   after call NextLineInut: ghost advanced = true
+//@   exit-ensures progress: advanced
+//@   return-ensures errorpath: !isnil(result0)
+//@ region Input#fertprogress from "NDu++" to "$end"
+//@   serves C11
+//@   opaque NextLineInut ValAsFloat DateConverter$1
+//@   ghost var advanced bool = false
+//@   after call NextLineInut: ghost advanced = true
+//@   exit-ensures progress: advanced
+//@ region Input#tillprogress from "NRTIL++" to "$end"
+//@   serves C11
+//@   opaque NextLineInut ValAsFloat ValAsInt DateConverter$1
+//@   ghost var advanced bool = false
+//@   after call NextLineInut: ghost advanced = true
+//@   exit-ensures progress: advanced
+//@ region ExtractMeasuredDataTxt#progress from "g.NMESS++" to "$end"
+//@   serves C11
+//@   opaque NextLineInut ValAsFloat DateConverter$1
+//@   ghost var advanced bool = false
+//@   after call NextLineInut: ghost advanced = true
+//@   exit-ensures progress: advanced
